@@ -143,13 +143,22 @@ CLAIMS["C15"] = dict(
          "GroupBy against the longest-listed-prefix partition for every group_by / merge labelling of <= 2 (thorough <= 4) of "
          "the 14 key paths over {a,b}, 361 contexts each. Two genuine defects repaired (fix: d3e7985, be31c5e).",
     design_ref="DESIGN.md 5 (C15)", technique=TECH, note=TRUST)
-CLAIMS["C18"] = bounded_claim(
-    "Bounded: a per-file state machine written from the property text (after an interrupted fill: nothing stored / previous "
-    "complete flow / complete new flow, never a strict prefix) against real Cache runs on a temp directory: all histories of "
-    "length <= 3 (thorough <= 4) over {run, again, recompute, drop} in 17 forms (Sequence, Source, alter_sequence, Split), "
-    "every crash point (consumer stops after k, upstream / downstream raises at k), one and two caches, instrumented upstream "
-    "pull counts. No proof obligations yet (ghost file system of DESIGN 5/C18). One genuine defect repaired (fix: 62835fd).",
-    "DESIGN.md 5 (C18)")
+CLAIMS["C18"] = dict(
+    category="proof",
+    text="Deductive proof over a ghost file system (path -> absent | sequence of pickled values; open / pickle / os.replace / "
+         "os.remove / os.access are library contracts): Cache._dump_flow_and_yield passes the flow unaltered and lazily, keeps "
+         "the values seen so far in a temporary file, and stores the whole flow under the cache name only on exhaustion; at EVERY "
+         "yield (= every consumer stop point k and every downstream raise, explored as GeneratorExit travelling through the "
+         "function's try/finally) and when the upstream raises while the next value is pulled, the cache name holds exactly what "
+         "it held before and no temporary file is left - so no truncated flow can ever be served. Cache._load_flow yields exactly "
+         "the stored values in order and terminates; Cache.run replays the stored flow without pulling a single value from the "
+         "incoming flow and without touching the file system when the cache exists and recompute is off, and passes the incoming "
+         "flow otherwise; cache_exists / drop_cache as documented. Bounded part (labelled): histories of first / repeated / "
+         "recompute / drop runs with every crash point on a real temp directory in 17 forms incl. alter_sequence hoisting and "
+         "Split, one and two caches. One genuine defect repaired (fix: 62835fd).",
+    design_ref="DESIGN.md 5 (C18), B.7", technique=TECH,
+    note=TRUST + "; the ghost file system and its library contracts (tier A) stand for the OS: real files, interpreter death "
+         "and buffering are exercised only by the bounded part; alter_sequence / Split hoisting is bounded only")
 CLAIMS["C19"] = bounded_claim(
     "Bounded: the real pipeline ToCSV, MakeFilename, Write, RenderLaTeX, Write, LaTeXToPDF, PDFToPNG (and the group variant) on "
     "a temp directory with recording stub converters: all histories of 1..2 runs (thorough 1..3) where each run keeps/changes "
